@@ -140,8 +140,7 @@ def run_case(case, st=None):
             # (every solution handed into the next operand). If that changes the answer, binding push-down matters for this input, whatever
             # the static predicate says; only queries on which it cannot matter are judged.
             try:
-                pushed = R.eval_seeded(where, ref_ctx(case["data"]), {})
-                same = ms(pushed, vars_) == ms(ref, vars_)
+                same = all(ms(R.eval_seeded(where, ref_ctx(case["data"]), {}, forget=fg), vars_) == ms(ref, vars_) for fg in (False, True))
             except (R.Latitude, R.Budget, ValueError, R.Err):
                 same = False
             if not same:
